@@ -2,18 +2,61 @@
 // A case is a history: `new N=<bits> w=<bs|8|16|32|64>` creates four default-constructed objects of
 // the implementation type and four std::bitset<N>; the following lines operate on `o=0..3`.
 // Every mutating line prints the observable state of its target: bits N-1..0, count, all/any/none.
+//
+// Built WITH contract checks: every TETL_PRECONDITION of the members is live.  The generator produces only
+// calls that satisfy the documented preconditions, with one exception: to_ulong / to_ullong are called on
+// every state; when their contract ("the value fits") fails, the handler below returns control to the call
+// site, which prints `overflow` (std::bitset: overflow_error).  A contract failure anywhere else aborts
+// (reported as a crash on that line).
+#define TETL_ENABLE_CONTRACT_CHECKS 1
+#define TETL_ENABLE_CUSTOM_ASSERT_HANDLER 1
 #include "proto.hpp"
 
 #include <etl/bitset.hpp>
 #include <etl/string_view.hpp>
 
 #include <bitset>
+#include <csetjmp>
 #include <memory>
 #include <stdexcept>
 #include <string>
 #include <utility>
 
 using proto::Line;
+
+static std::jmp_buf g_jmp;
+static bool g_armed = false;
+
+namespace etl {
+template <typename Assertion>
+[[noreturn]] auto assert_handler(Assertion const& msg) -> void
+{
+    if (g_armed) { std::longjmp(g_jmp, 1); }
+    std::fprintf(stderr, "unexpected contract failure: %s:%d %s\n", msg.file ? msg.file : "?", msg.line,
+                 msg.expression ? msg.expression : "");
+    std::abort();
+}
+} // namespace etl
+
+// Runs f() with the "value fits" contract armed: f's result, or `overflow` when the contract fails.
+// (The jump leaves only frames without non-trivial destructors: to_unsigned_type, test, the handler.)
+template <typename F>
+[[gnu::noinline]] static std::string guarded(F f)
+{
+    unsigned long long volatile v = 0;
+    if (setjmp(g_jmp) == 0) {
+        g_armed = true;
+        v       = f();
+        g_armed = false;
+        return std::to_string(v);
+    }
+    g_armed = false;
+    return "overflow";
+}
+
+// character types of the string constructors / to_string: `ct=c|w|u8|u16|u32`
+template <typename C>
+using ustr = std::basic_string<C>;
 
 struct Box {
     virtual ~Box()                             = default;
@@ -28,6 +71,10 @@ struct BoxT final : Box {
     static constexpr bool is_bs = std::is_void_v<Word>;
     using E = std::conditional_t<is_bs, etl::bitset<N>, etl::basic_bitset<N, std::conditional_t<is_bs, std::size_t, Word>>>;
     using S = std::bitset<N>;
+
+    // the character types other than char are instantiated at these widths only (compile time): the
+    // character type and the width are independent in the code (one template, `CharT` only compared and copied)
+    static constexpr bool wide_chars = N == 0 || N == 1 || N == 9 || N == 64 || N == 65 || N == 129;
 
     E e[4]{};
     S s[4]{};
@@ -56,6 +103,101 @@ struct BoxT final : Box {
 
     std::string mutated(std::size_t o) { return out("ok " + dump_e(e[o]), "ok " + dump_s(s[o])); }
 
+    // An absent key is an argument that is NOT passed: the overload is called with exactly the arguments
+    // present on the line (trailing ones only), for tetl and for std alike.
+    template <typename C>
+    std::string from_str_t(Line const& l, std::size_t o)
+    {
+        E& eo             = e[o];
+        S& so             = s[o];
+        auto const& units = l.list("s");
+        std::string ov    = l.has("ov") ? l.str("ov") : "sv";
+        bool hp = l.has("pos"), hn = l.has("n"), hz = l.has("zero"), h1 = l.has("one");
+        C zero = static_cast<C>(l.i("zero", '0'));
+        C one  = static_cast<C>(l.i("one", '1'));
+        ustr<C> str;
+        for (auto u : units) str.push_back(static_cast<C>(u));
+        using SV = etl::basic_string_view<C>;
+        if (ov == "sv") {
+            if ((hn && !hp) || (hz && !hn) || (h1 && !hz)) return "bad-op\tbad-op";
+            proto::heap_buf<C> hb(units); // exact size, no terminator
+            SV sv(hb.p, hb.n);
+            auto pos = hp ? l.pos("pos") : 0;
+            auto ne  = hn ? l.pos("n", SV::npos) : SV::npos;
+            auto ns  = hn ? l.pos("n", ustr<C>::npos) : ustr<C>::npos;
+            if (h1) eo = E(sv, pos, ne, zero, one);
+            else if (hz) eo = E(sv, pos, ne, zero);
+            else if (hn) eo = E(sv, pos, ne);
+            else if (hp) eo = E(sv, pos);
+            else eo = E(sv);
+            try {
+                if (h1) so = S(str, pos, ns, zero, one);
+                else if (hz) so = S(str, pos, ns, zero);
+                else if (hn) so = S(str, pos, ns);
+                else if (hp) so = S(str, pos);
+                else so = S(str);
+            } catch (std::exception const&) {
+                return out("ok " + dump_e(eo), "throw");
+            }
+        } else if (ov == "cstr") {
+            if (hp || (hz && !hn) || (h1 && !hz)) return "bad-op\tbad-op";
+            std::vector<long long> z(units);
+            z.push_back(0);
+            proto::heap_buf<C> hb(z); // exact size with terminator
+            C const* cp = hb.p;
+            auto ne     = hn ? l.pos("n", SV::npos) : SV::npos;
+            auto ns     = hn ? l.pos("n", ustr<C>::npos) : ustr<C>::npos;
+            if (h1) eo = E(cp, ne, zero, one);
+            else if (hz) eo = E(cp, ne, zero);
+            else if (hn) eo = E(cp, ne);
+            else eo = E(cp);
+            try {
+                if (h1) so = S(cp, ns, zero, one);
+                else if (hz) so = S(cp, ns, zero);
+                else if (hn) so = S(cp, ns);
+                else so = S(cp);
+            } catch (std::exception const&) {
+                return out("ok " + dump_e(eo), "throw");
+            }
+        } else {
+            return "bad-op\tbad-op";
+        }
+        return mutated(o);
+    }
+
+    template <typename C>
+    std::string to_string_t(Line const& l, std::size_t o)
+    {
+        E const& ce = e[o];
+        S const& cs = s[o];
+        auto cap    = static_cast<std::size_t>(l.i("cap"));
+        bool hz = l.has("zero"), h1 = l.has("one");
+        if (h1 && !hz) return "bad-op\tbad-op";
+        C zero = static_cast<C>(l.i("zero", '0'));
+        C one  = static_cast<C>(l.i("one", '1'));
+        std::vector<long long> re, rs;
+        auto units = [](auto const& str) {
+            std::vector<long long> r;
+            for (auto c : str) r.push_back(static_cast<long long>(static_cast<std::make_unsigned_t<
+                std::conditional_t<std::is_same_v<C, char8_t> || std::is_same_v<C, char16_t> || std::is_same_v<C, char32_t>,
+                    std::conditional_t<sizeof(C) == 1, unsigned char, std::conditional_t<sizeof(C) == 2, unsigned short, unsigned>>,
+                    C>>>(c)));
+            return r;
+        };
+        auto call = [&]<std::size_t Cap>() {
+            if (h1) return units(ce.template to_string<Cap, C>(zero, one));
+            if (hz) return units(ce.template to_string<Cap, C>(zero));
+            return units(ce.template to_string<Cap, C>());
+        };
+        if (cap == N) re = call.template operator()<N>();
+        else if (cap == N + 5) re = call.template operator()<N + 5>();
+        else return "bad-op\tbad-op";
+        if (h1) rs = units(cs.template to_string<C>(zero, one));
+        else if (hz) rs = units(cs.template to_string<C>(zero));
+        else rs = units(cs.template to_string<C>());
+        return out(proto::fmt_list(re), proto::fmt_list(rs));
+    }
+
     std::string step(Line const& l) override
     {
         auto const& op = l.op;
@@ -73,7 +215,13 @@ struct BoxT final : Box {
         if (op == "flip_all") { eo.flip(); so.flip(); return mutated(o); }
         if (op == "set") {
             auto pos = static_cast<std::size_t>(l.i("pos"));
-            bool v   = l.i("v") != 0;
+            if (!l.has("v")) { // `value` left to its default
+                if constexpr (is_bs) eo.set(pos);
+                else eo.unchecked_set(pos);
+                so.set(pos);
+                return mutated(o);
+            }
+            bool v = l.i("v") != 0;
             if constexpr (is_bs) eo.set(pos, v);
             else eo.unchecked_set(pos, v);
             so.set(pos, v);
@@ -139,45 +287,15 @@ struct BoxT final : Box {
         }
         if (op == "from_str") {
             if constexpr (is_bs) {
-                auto const& units = l.list("s");
-                char zero         = static_cast<char>(l.i("zero", '0'));
-                char one          = static_cast<char>(l.i("one", '1'));
-                std::string ov    = l.has("ov") ? l.str("ov") : "sv";
-                std::string str;
-                for (auto u : units) str.push_back(static_cast<char>(u));
-                bool deflt = !l.has("zero") && !l.has("one");
-                if (ov == "sv") {
-                    proto::heap_buf<char> hb(units); // exact size, no terminator
-                    etl::string_view sv(hb.p, hb.n);
-                    auto pos = l.pos("pos");
-                    auto ne  = l.pos("n", etl::string_view::npos);
-                    auto ns  = l.pos("n", std::string::npos);
-                    if (deflt && l.at("n").kind == proto::Val::Npos && pos == 0) eo = E(sv); // all arguments defaulted
-                    else if (deflt) eo = E(sv, pos, ne);
-                    else eo = E(sv, pos, ne, zero, one);
-                    try {
-                        so = deflt ? S(str, pos, ns) : S(str, pos, ns, zero, one);
-                    } catch (std::exception const&) {
-                        return out("ok " + dump_e(eo), "throw");
-                    }
-                } else if (ov == "cstr") {
-                    std::vector<long long> z(units);
-                    z.push_back(0);
-                    proto::heap_buf<char> hb(z); // exact size with terminator
-                    auto ne = l.pos("n", etl::string_view::npos);
-                    auto ns = l.pos("n", std::string::npos);
-                    if (deflt && l.at("n").kind == proto::Val::Npos) eo = E(static_cast<char const*>(hb.p));
-                    else if (deflt) eo = E(static_cast<char const*>(hb.p), ne);
-                    else eo = E(static_cast<char const*>(hb.p), ne, zero, one);
-                    try {
-                        so = deflt ? S(hb.p, ns) : S(hb.p, ns, zero, one);
-                    } catch (std::exception const&) {
-                        return out("ok " + dump_e(eo), "throw");
-                    }
-                } else {
-                    return "bad-op\tbad-op";
+                std::string ct = l.has("ct") ? l.str("ct") : "c";
+                if (ct == "c") return from_str_t<char>(l, o);
+                if constexpr (wide_chars) {
+                    if (ct == "w") return from_str_t<wchar_t>(l, o);
+                    if (ct == "u8") return from_str_t<char8_t>(l, o);
+                    if (ct == "u16") return from_str_t<char16_t>(l, o);
+                    if (ct == "u32") return from_str_t<char32_t>(l, o);
                 }
-                return mutated(o);
+                return "bad-op\tbad-op";
             } else {
                 return "bad-op\tbad-op";
             }
@@ -205,13 +323,12 @@ struct BoxT final : Box {
         if (op == "to_ullong" || op == "to_ulong") {
             if constexpr (is_bs) {
                 std::string re, rs;
+                E const& ce = eo;
                 if (op == "to_ullong") {
-                    if constexpr (requires(E const& x) { x.to_ullong(); }) re = std::to_string(std::as_const(eo).to_ullong());
-                    else re = "absent";
+                    re = guarded([&] { return static_cast<unsigned long long>(ce.to_ullong()); });
                     try { rs = std::to_string(so.to_ullong()); } catch (std::overflow_error const&) { rs = "overflow"; }
                 } else {
-                    if constexpr (requires(E const& x) { x.to_ulong(); }) re = std::to_string(std::as_const(eo).to_ulong());
-                    else re = "absent";
+                    re = guarded([&] { return static_cast<unsigned long long>(ce.to_ulong()); });
                     try { rs = std::to_string(so.to_ulong()); } catch (std::overflow_error const&) { rs = "overflow"; }
                 }
                 return out(re, rs);
@@ -221,22 +338,15 @@ struct BoxT final : Box {
         }
         if (op == "to_string") {
             if constexpr (is_bs) {
-                auto cap   = static_cast<std::size_t>(l.i("cap"));
-                bool deflt = !l.has("zero") && !l.has("one");
-                char zero  = static_cast<char>(l.i("zero", '0'));
-                char one   = static_cast<char>(l.i("one", '1'));
-                std::vector<long long> re, rs;
-                auto units = [](auto const& str) {
-                    std::vector<long long> r;
-                    for (auto c : str) r.push_back(static_cast<unsigned char>(c));
-                    return r;
-                };
-                E const& ce = eo;
-                if (cap == N) re = deflt ? units(ce.template to_string<N>()) : units(ce.template to_string<N>(zero, one));
-                else if (cap == N + 5) re = deflt ? units(ce.template to_string<N + 5>()) : units(ce.template to_string<N + 5>(zero, one));
-                else return "bad-op\tbad-op";
-                rs = deflt ? units(so.to_string()) : units(so.to_string(zero, one));
-                return out(proto::fmt_list(re), proto::fmt_list(rs));
+                std::string ct = l.has("ct") ? l.str("ct") : "c";
+                if (ct == "c") return to_string_t<char>(l, o);
+                if constexpr (wide_chars) {
+                    if (ct == "w") return to_string_t<wchar_t>(l, o);
+                    if (ct == "u8") return to_string_t<char8_t>(l, o);
+                    if (ct == "u16") return to_string_t<char16_t>(l, o);
+                    if (ct == "u32") return to_string_t<char32_t>(l, o);
+                }
+                return "bad-op\tbad-op";
             } else {
                 return "bad-op\tbad-op";
             }
@@ -260,7 +370,7 @@ static std::unique_ptr<Box> make(long long n, std::string const& w)
 {
     switch (n) {
 #define W(K) case K: return make_w<K>(w);
-        W(1) W(7) W(8) W(9) W(31) W(32) W(33) W(63) W(64) W(65) W(127) W(128) W(129)
+        W(0) W(1) W(7) W(8) W(9) W(31) W(32) W(33) W(63) W(64) W(65) W(127) W(128) W(129)
 #ifdef C17_MORE_WIDTHS
         W(2) W(3) W(15) W(16) W(17) W(100) W(191) W(192) W(193) W(200)
 #endif
